@@ -65,6 +65,7 @@ type fnInfo struct {
 	ext    externalFn
 	name   string
 	checked bool
+	subst  *ssa.Function // harness-side Go stub that replaces this function
 }
 
 // State of one interpreter instance (one worker).
@@ -79,6 +80,7 @@ type interpreter struct {
 	undo       []undoRec
 	logging    bool
 	initSkip   func(pkgPath string) bool
+	subst      map[string]*ssa.Function // target function name -> harness stub
 	funcsSeen  map[*ssa.Function]bool
 	depth      int
 	maxDepth   int
@@ -160,6 +162,9 @@ func (i *interpreter) info(fn *ssa.Function) *fnInfo {
 	if fn.Parent() == nil {
 		fi.intrinsic = intrinsics[fi.name]
 		fi.ext = externals[fi.name]
+		if st := i.subst[fi.name]; st != nil && st != fn {
+			fi.subst = st
+		}
 	}
 	i.fninfo[fn] = fi
 	return fi
@@ -621,6 +626,9 @@ func callSSA(i *interpreter, caller *frame, callpos token.Pos, fn *ssa.Function,
 		caller: caller, // for panic/recover
 		fn:     fn,
 		info:   info,
+	}
+	if info.subst != nil {
+		return callSSA(i, caller, callpos, info.subst, args, nil)
 	}
 	if fn.Parent() == nil {
 		if info.intrinsic != nil {
